@@ -1,7 +1,7 @@
 (* Property C01 - only statements, each closed by [exact].  (partial: see manifest.d/C01.json) *)
 From Coq Require Import ZArith List Bool String.
 Import ListNotations.
-Require Import UV.C01.Model UV.Gen.Stubs UV.C01.MachineProofs UV.C01.StubTheorems UV.C01.Proofs.
+Require Import UV.C01.Model UV.Gen.Stubs UV.C01.MachineProofs UV.C01.StubTheorems UV.C01.Proofs UV.C01.ShadowProofs.
 Local Open Scope Z_scope.
 
 (* ---- (i) the assembly stubs, as generated from arch/x86_64/*.S of the current tree ----
@@ -112,6 +112,34 @@ Theorem C01_return_stub_preserves_xray_exit : forall W regs xmm mem zf,
        s_rsp := 8; s_target := VInitMem 0; s_memfrom := 0; s_allowed := [] |} stub___xray_exit.
 Proof. exact xray_exit_ok. Qed.
 Print Assumptions C01_return_stub_preserves_xray_exit.
+
+(* ---- (ii) the shadow return stack (Shadow.v) ----
+   A program is a call tree: every activation has a return address, the hook its entry met
+   (none / -pg,fentry,dynamic / PLT / cygprof), calls, and tail calls that reuse its return slot.
+   [full d c] is the operation list the tree performs on slot d (call, entry hooks, returns through
+   the trampolines); [native c] is where the untraced program's returns go.
+   [Good d s]: the state of libmcount's shadow stack at a call boundary (every open frame owns a slot
+   below d; tail-call frames are linked; the innermost frame's slot is hooked). *)
+Theorem C01_returns_to_real_caller : forall c d s,
+  (1 <= d)%nat -> no_recover c = true -> Good d s ->
+  exists s' outs, run_ops s (full d c) = (s', outs) /\
+                  targets outs = map Some (native c) /\           (* every return goes to its real caller *)
+                  rs s' = rs s /\                                 (* the shadow stack is popped back *)
+                  (forall l, (0 < l < d)%nat -> mem s' l = mem s l) /\  (* outer return slots hold what they held *)
+                  Good d s'.
+Proof. exact returns_to_real_caller. Qed.
+Print Assumptions C01_returns_to_real_caller.
+
+Theorem C01_program_returns_to_real_callers : forall c, no_recover c = true ->
+  exists s' outs, run_ops st0 (full 1%nat c) = (s', outs) /\ targets outs = map Some (native c) /\ rs s' = [].
+Proof. exact program_returns_to_real_callers. Qed.
+Print Assumptions C01_program_returns_to_real_callers.
+
+(* the run-time checker applied to libmcount's observed returns accepts every run of the model *)
+Theorem C01_checker_accepts_model : forall c, no_recover c = true ->
+  ok_returns c (snd (run_ops st0 (full 1%nat c))) = true.
+Proof. exact checker_accepts_model. Qed.
+Print Assumptions C01_checker_accepts_model.
 
 (* ---- (iii) errno ---- *)
 Theorem C01_errno_preserved : forall (A : Type) (inner : Z -> A * Z) (e : Z),
